@@ -315,3 +315,43 @@ Proof.
   - intros j Hj. apply Hfr. destruct (quads_flat sp x y t Cx Cy Ct) as (_ & _ & A3). rewrite A3. exact Hj.
 Qed.
 End NestedAdd.
+
+(* ---------- x += y on an arbitrarily nested space ---------- *)
+Lemma map_eq_pointwise {A B} (f g : A -> B) (l : list A) :
+  map f l = map g l -> forall a, In a l -> f a = g a.
+Proof.
+  induction l as [|b l IH]; intros E a Ha; [contradiction|].
+  cbn in E. injection E. intros E' Eb. destruct Ha as [<- | Ha]; [exact Eb | apply IH; assumption].
+Qed.
+
+Section NestedIAdd.
+Context {T : Type} {N : Num T} {F : NumField T}.
+Variable flg : nat -> bool * bool.
+Variable bdtf : nat -> bool.
+Variable icast : T -> T.
+
+Theorem nested_iadd_correct (sp : space) (x y : elem) (s : store T) :
+  conf sp x -> conf sp y ->
+  NoDup (flat x) ->
+  (* a leaf of y that is also a leaf of x sits at the same position (y is x, shared components) *)
+  (forall q q', In q (quads sp x y x) -> In q' (quads sp x y x) -> q_x2 q' = q_out q -> q_out q' = q_out q) ->
+  lens_ok s (quads sp x y x) ->
+  exists s', w_iadd flg bdtf icast sp x y s = Ok s'
+    /\ (forall q, In q (quads sp x y x) -> q_fl q = true ->
+          s' (q_out q) = vadd (s (q_x1 q)) (s (q_x2 q)))
+    /\ (forall j, ~ In j (flat x) -> s' j = s j).
+Proof.
+  intros Cx Cy Hnd Hpos Hlen.
+  destruct (quads_flat sp x y x Cx Cy Cx) as (A1 & A2 & A3).
+  assert (Hwf : wf (quads sp x y x)).
+  { apply wf_inplace.
+    - rewrite A3. exact Hnd.
+    - intros q Hq. apply (map_eq_pointwise q_x1 q_out (quads sp x y x)); [congruence | exact Hq].
+    - exact Hpos. }
+  destruct (ps_lincomb_correct flg bdtf icast sp (of_Z 1) (of_Z 1) x y x s Cx Cy Cx Hwf Hlen)
+    as (s' & E & Hres & Hfr).
+  exists s'. split; [exact E|]. split.
+  - intros q Hq Hfl. rewrite (Hres q Hq), Hfl. cbn [cast_of]. rewrite map_id. apply vlin_one_one.
+  - intros j Hj. apply Hfr. rewrite A3. exact Hj.
+Qed.
+End NestedIAdd.
